@@ -266,6 +266,9 @@ fn execute_net(prop: &str, p: &net::NetProgram) -> RunInfo {
             });
             let res2 = net::run_net(p, &opts);
             intr::disarm();
+            if res.rerun_from.is_some() {
+                info.probe("application_run_a_second_time");
+            }
             for r in &res.trace {
                 if let net::Ev::Topo { n, .. } = &r.ev {
                     info.probe(if *n == u32::MAX { "topology_query_panicked" } else if *n >= 2 { "topology_routes_queried" } else { "topology_queried_with_less_than_two_destinations" });
